@@ -210,11 +210,16 @@ Definition filter_managed (flt : option str) (m : list tpath) : list tpath :=
 
 (* managed_paths_for_plan.  Rust returns Option<set>; [None] and [Some {}] are indistinguishable
    for [plan] (no managed update, no delete), so the model returns the list. *)
+(* read_only.rs retain_under_roots: snapshots are shared by every project and configuration using
+   this agentpack home; the fallback only considers files under a current root of their target *)
+Definition under_roots (roots : list root) (tp : tpath) : bool :=
+  existsb (fun r => str_eqb (rtarget r) (fst tp) && is_prefix (rpath r) (snd tp)) roots.
+
 Definition managed_for_plan (w : world) (roots : list root) (flt : option str) : list tpath :=
   match load_managed (files w) roots with
   | x :: m => filter_managed flt (x :: m)
   | [] => match latest_dr (snaps w) with
-          | Some sn => filter_managed flt (snap_managed sn)
+          | Some sn => filter_managed flt (filter (under_roots roots) (snap_managed sn))
           | None => []
           end
   end.
@@ -305,6 +310,12 @@ Definition root_had_changes (roots : list root) (pl : list change) (i : nat) : b
 Definition new_manifest (r : root) (es : list (str * N)) : fobj :=
   FMan (Parsed target_manifest_schema_version (rtarget r) es).
 
+(* target_manifest.rs legacy_manifest_lists_entries: no preferred-name manifest, and the legacy-named
+   one is usable for this target and still lists entries *)
+Definition legacy_stale (f : fs) (r : root) : bool :=
+  negb (exists_at f (mf_path r)) &&
+  match read_manifest f r with Some (_ :: _) => true | _ => false end.
+
 Fixpoint write_manifests_from (i : nat) (rs : list root) (roots : list root) (D : list dfile)
          (pl : list change) (f : fs) : fs * list achange :=
   match rs with
@@ -312,7 +323,8 @@ Fixpoint write_manifests_from (i : nat) (rs : list root) (roots : list root) (D 
   | r :: rest =>
     let es := per_root roots D i r in
     let existed := exists_at f (mf_path r) in
-    if existed || negb (match es with [] => true | _ => false end) || root_had_changes roots pl i then
+    if existed || negb (match es with [] => true | _ => false end) || root_had_changes roots pl i
+       || legacy_stale f r then
       let f1 := upd f (mf_path r) (Some (new_manifest r es)) in
       let '(f2, l) := write_manifests_from (S i) rest roots D pl f1 in
       (f2, Build_achange (rtarget r) (if existed then AUpdate else ACreate) (mf_path r)
@@ -367,11 +379,12 @@ Fixpoint manifests_missing_from (i : nat) (rs roots : list root) (D : list dfile
           | None => true
           end
      else (* a root without desired files: an existing preferred-name manifest that is unusable or
+             still lists entries is stale; without one, a legacy-named manifest of this target that
              still lists entries is stale *)
           match f (mf_path r) with
           | Some (FMan m) => match manifest_usable m (rtarget r) with Some [] => false | _ => true end
           | Some (FBytes _) => true
-          | None => false
+          | None => legacy_stale f r
           end)
     || manifests_missing_from (S i) rest roots D f
   end.
